@@ -24,7 +24,7 @@ P.assume("loop-carried realloc'ed arrays sa->t / sa->offset are abstracted by th
 P.assume("file content: prefix of a writer output, i.e. every complete `t` header announces sizeof(double) bytes "
          "(a hostile file with a larger `t` field would overflow sa->t: fread(&sa->t[i], field.size, ...) trusts the size)")
 P.not_decided += ["identity of each accepted snapshot with the uninterrupted run's snapshot (needs the writer side: C06)",
-                  "restart-and-continue-appending after a crash (reb_simulation_save_to_file repair path): not yet under contract",
+                  "restart-and-continue-appending after a crash: the append path of reb_simulation_save_to_file is under contract in C07_append (trailer protocol, recovery invariant); the composition `truncated file -> open -> append -> open` over arbitrary histories is argued from the two contracts, not mechanised",
                   "reb_fmemopen on platforms other than glibc"]
 
 
